@@ -44,4 +44,4 @@ for pid in ("C02", "C09", "C12", "C13", "C14"):
 
 HOOK_COMMITS = []
 NOT_APPLICABLE = {}
-_p("C18", ["c18_state"], [], "wip")
+_p("C18", ["c18_state", "c20_config"], [], "wip")
